@@ -90,6 +90,41 @@ def exp_rotvec(ev, v):
     return out
 
 
+def _closed_form_convention(ev, which='mat_to_rph'):
+    """None if transform.<which> goes through scipy's as_euler/from_euler (then it is inlined);
+    otherwise the (sequence, degrees) convention of its partner, default ('xyz', True)."""
+    import ast as _ast
+    cache = ev.repo.__dict__.setdefault('_euler_conv_cache', {})
+    if which in cache:
+        return cache[which]
+    try:
+        f = ev.repo.function('transform.' + which)
+        partner = ev.repo.function('transform.' + ('mat_from_rph' if which == 'mat_to_rph'
+                                                     else 'mat_to_rph'))
+    except Exception:
+        cache[which] = None
+        return None
+    own = 'as_euler' if which == 'mat_to_rph' else 'from_euler'
+    if any(isinstance(n, _ast.Attribute) and n.attr == own for n in _ast.walk(f.node)):
+        cache[which] = None
+        return None
+    conv = ('xyz', True)
+    for n in _ast.walk(partner.node):
+        if isinstance(n, _ast.Call) and isinstance(n.func, _ast.Attribute) and \
+                n.func.attr in ('from_euler', 'as_euler') and n.args and \
+                isinstance(n.args[0], _ast.Constant) and isinstance(n.args[0].value, str):
+            deg = False
+            pos = 2 if n.func.attr == 'from_euler' else 1
+            if len(n.args) > pos and isinstance(n.args[pos], _ast.Constant):
+                deg = n.args[pos].value
+            for kw in n.keywords:
+                if kw.arg == 'degrees' and isinstance(kw.value, _ast.Constant):
+                    deg = kw.value.value
+            conv = (n.args[0].value, deg)
+    cache[which] = conv
+    return conv
+
+
 class RotHooks:
     """Mix-in for evaluator hooks."""
     ROT = 'scipy.spatial.transform.Rotation'
@@ -103,6 +138,16 @@ class RotHooks:
             return RotObj(args[0])
         if q == self.ROT + '.from_rotvec':
             return RotObj(exp_rotvec(ev, args[0]))
+        if q == 'pyins.transform.mat_to_rph' and args and isinstance(args[0], SArray):
+            # a closed-form mat_to_rph is used through its summary "inverse of mat_from_rph",
+            # which rule EULER-INV establishes (assume-guarantee: the properties that rely on it
+            # run EULER-INV); the scipy form is inlined as before
+            conv = _closed_form_convention(ev)
+            if conv is not None:
+                return EulerOf(args[0], conv[0], conv[1])
+        if q == 'pyins.transform.mat_from_rph' and args and isinstance(args[0], EulerOf):
+            if _closed_form_convention(ev, 'mat_from_rph') is not None:
+                return args[0].mat
         return NotImplemented
 
     def attr(self, ev, base, a, node):
